@@ -62,8 +62,9 @@ UNIT = dict(
         ]),
         "Circuit::try_acquire": dict(rules=[
             ("addarg", ["transition_to"], CLKGH),
-            ("inject", r"self\.transition_to\(CircuitState::HalfOpen", "after", "proof { gh.do_admit(); }"),
-            ("inject", r"if\s+permitted\s*\{", "at", " proof { gh.do_admit(); } "),
+            # ghost trial counter as a function of the outcome, independent of the shape of the body: an admission while the breaker
+            # was not closed (open with the wait elapsed, or half-open) is one trial call
+            ("inject", None, "result", "proof { if vx_result && old(self).state != CircuitState::Closed { gh.do_admit(); } }"),
         ]),
         "Circuit::force_open": dict(rules=[("addarg", ["transition_to"], CLKGH)]),
         "Circuit::force_closed": dict(rules=[("addarg", ["transition_to"], CLKGH)]),
